@@ -245,6 +245,10 @@ func c07(r *engine.Report, p *engine.Program) {
 	}
 	// O9 no function of the cone returns with a lock still held (a leaked lock wedges the node)
 	lockBalance(r, p, "O9-lock-balance", scope, lockFields)
+	// O10 reserved-service handlers cannot be made to answer themselves
+	replyLoopRule(r, p, "O10-reply-loop")
+	// O11 the shared UDP demultiplexer cannot be blocked by one peer's dead session
+	sharedDemuxRule(r, p, "O11-shared-demux")
 }
 
 func chanDesc(v ssa.Value) string {
